@@ -87,11 +87,11 @@ def generate(rng, tier):
         if not pts or (dtid, k) in used:
             continue
         used.add((dtid, k))
-        tbpts = [p for p in pts if (p['want'] or '').startswith('tb') and p['j'] == 0]
+        tbpts = [p for p in pts if (p['want'] or '').startswith('tb') and p['j'] == p['raise_at']]
         p = rng.choice(tbpts) if (tbpts and rng.random() < 0.7) else rng.choice(pts)
         r = rng.random()
         f = {'dt': dtid, 'k': k, 'pid': p['pid']}
-        if r < 0.25 and (p['want'] or '').startswith('tb') and p['j'] == 0:
+        if r < 0.25 and (p['want'] or '').startswith('tb') and p['j'] == p['raise_at']:
             f['kind'] = 'noraise'
         else:
             f['kind'] = 'raise'
